@@ -100,8 +100,16 @@ def setget_history(case):
     return events
 
 
+# a value that compares equal to the one already there (or to the built-in default) but is another value: 1 / true, 0 / false, 5 / 5.0, the default itself
+EQUAL_BUT_DIFFERENT = [[("set", "output_format", "text")], [("set", "log_level", "INFO")], [("set", "custom_key", "1"), ("set", "custom_key", "true")],
+                       [("set", "custom_key", "0"), ("set", "custom_key", "false")], [("set", "greeting", "5"), ("set", "greeting", "5.0")],
+                       [("set", "timeout", "30"), ("set", "timeout", "30.0")], [("set", "custom_key", "true"), ("set", "custom_key", "1")]]
+
+
 def gen_setget(rng, i):
     ops = []
+    pair = EQUAL_BUT_DIFFERENT[i % len(EQUAL_BUT_DIFFERENT)]
+    ops += list(pair) + [("get", pair[-1][1])]
     for _ in range(rng.randint(8, 25)):
         r = rng.random()
         if r < 0.45:
